@@ -1187,7 +1187,10 @@ fn format_initializer_inner(
     context: &mut FormatContext,
 ) -> Result<(), FormatError> {
     match init {
-        ast::Initializer::Expression(expr) => format_expression(expr, output, context)?,
+        // An initializer is an element of a comma separated list so a comma expression needs parenthesis
+        ast::Initializer::Expression(expr) => {
+            format_subexpression(expr, 17, OperatorSide::CommaList, output, context)?
+        }
         ast::Initializer::Aggregate(exprs) => {
             output.push_str("{ ");
             let (head, tail) = exprs.split_first().unwrap();
